@@ -135,6 +135,10 @@ class C12(core.PropertyCheck):
                 body = self.words(rng, rng.randint(1, 4))
                 if rng.random() < 0.2:
                     body += " :ref:`index-l0`"
+                if path.endswith("-b.yaml") and getattr(self, "_xfile", True) and rng.random() < 0.5:
+                    # cross-file inheritance: the content comes from an entry of extracts-a.yaml (may be dangling)
+                    docs.append(f"ref: {r}\nsource:\n  file: extracts-a.yaml\n  ref: {rng.choice(['foo', 'bar', 'baz'])}\n")
+                    continue
                 docs.append(f"ref: {r}\ncontent: |\n  {body}\n")
             return "---\n".join(docs) + "...\n"
         docs = []
@@ -159,6 +163,9 @@ class C12(core.PropertyCheck):
         return self.gen_page(rng, name, ctx, toctree=(name == "index"))
 
     def gen_case(self, rng, kind):
+        # the store-correspondence cases instantiate the model with a parse table keyed by each source's own content;
+        # cross-file giza inheritance (b's pages depend on a's text) is therefore exercised by the end-to-end cases only
+        self._xfile = kind != "corr"
         npages = rng.randint(1, 3)
         pages = [f"page{i + 1}" for i in range(npages)]
         yaml = rng.choice(["includes/extracts-a.yaml", "includes/extracts-a.yaml", "includes/steps-setup.yaml"])
@@ -168,6 +175,8 @@ class C12(core.PropertyCheck):
             src[p + ".txt"] = None
         src["includes/shared.rst"] = None
         src[yaml] = None
+        if yaml.startswith("includes/extracts") and rng.random() < 0.5:
+            src["includes/extracts-b.yaml"] = None
         src["code/sample.py"] = None
         src["images/a.png"] = None
         for p in list(src):
